@@ -334,7 +334,7 @@ def r3_positive(repo):
                                             "found %s" % (cls, d))
                     if s == "bounds-forward":
                         need = [("isinstance(%s, WildCardType)" % other, True),
-                                ("%s.bound is not None" % other, True)]
+                                ("%s.bound is None" % other, False)]
                         both = any(p and "self.variance.is_covariant()" in t_ and
                                    "%s.variance.is_covariant()" % other in t_ for t_, p in gs) or \
                             (("self.variance.is_covariant()", True) in gs and
@@ -423,7 +423,7 @@ def r4_bounds(repo):
     ok = len(pos) == 1
     if ok:
         gs = [(src(t_), p) for t_, p in flat_guards(pos[0])]
-        ok = ("isinstance(%s, WildCardType)" % o, True) in gs and ("%s.bound is not None" % o, True) in gs and \
+        ok = ("isinstance(%s, WildCardType)" % o, True) in gs and ("%s.bound is None" % o, False) in gs and \
             ("self.variance.is_covariant()", True) in gs and ("%s.variance.is_covariant()" % o, True) in gs and \
             src(pos[0].value) == "self.bound.is_subtype(%s.bound)" % o
     obs.append(Ob("C06-R4", "WildCardType.is_subtype:covariant-pair-bounds-forward", _w(f), ok,
